@@ -234,7 +234,7 @@ def plan():
                  cuts=[CUT_LISTENER], bounds={"members": 2 if two else 1, "scheduled_for_deletion": "symbolic", "frontier_heartbeat": "u64 symbolic"}, desc="digest lists exactly the members not scheduled for deletion, verbatim", mem=20 if two else 6, timeout=1800)
     P["C12"] += [digest(False, ("quick", "thorough")), digest(True, ("thorough",))]
     # ---------------- C15
-    PFX = {0: "''", 1: "'a'", 2: "'e-acute'", 3: "'a e-acute'", 4: "'grinning-face (4 bytes)'"}
+    PFX = {0: "''", 1: "'a'", 2: "'e-acute'", 3: "'a e-acute'", 4: "'grinning-face (4 bytes)'", 5: "'aaaa' (decoy: never a prefix of a 2-symbol key, sorts inside the scanned range)"}
     def c15d(p0, p1, two, drop, forever, tiers):
         return H(f"c15_d_{p0}_{p1 if two else 'x'}{'_drop' if drop else ''}{'_fv' if forever else ''}", f"c15_dispatch({p0}, {p1}, {str(two).lower()}, {str(drop).lower()}, {str(forever).lower()})",
                  mod="listener", macro="h_lst", unwind=6, tiers=tiers, rules=[(r"^memcmp", None, 9)], covers=["key starts with a multi-byte character"],
@@ -245,7 +245,7 @@ def plan():
         return H(f"c15_nopanic_{int(w)}", f"c15_any_key_no_panic({str(w).lower()})", mod="listener", macro="h_lst", unwind=6, tiers=tiers, rules=[(r"^memcmp", None, 9)], covers=["three-byte first character"],
                  funcs=["listener.rs::InnerListeners::trigger_event"], bounds={"key": "0..=2 arbitrary chars (all UTF-8 encodings of 1-4 bytes)", "subscriptions": "none" if not w else "one, empty prefix"},
                  desc="dispatch never panics on any key (F-2 regression check)", mem=14, timeout=1800)
-    P["C15"] = [c15n(False, ("quick", "thorough")), c15d(1, 0, False, False, False, ("quick", "thorough")), c15d(2, 0, True, False, False, ("thorough",)), c15d(1, 3, True, True, True, ("quick", "thorough")),
+    P["C15"] = [c15n(False, ("quick", "thorough")), c15d(5, 3, True, False, False, ("quick", "thorough")), c15d(1, 0, False, False, False, ("thorough",)), c15d(5, 1, True, False, False, ("thorough",)), c15d(2, 0, True, False, False, ("thorough",)), c15d(1, 3, True, True, True, ("quick", "thorough")),
                 c15n(True, ("thorough",))] + [c15d(a, b, True, False, False, ("thorough",)) for (a, b) in ((0, 1), (1, 3), (2, 4), (3, 4), (0, 4), (1, 2))] + \
         [c15d(3, 0, False, False, False, ("thorough",)), c15d(4, 0, False, False, False, ("thorough",)), c15d(0, 1, True, True, False, ("thorough",)), c15d(2, 2, True, False, True, ("thorough",))]
     # ---------------- C17
